@@ -220,6 +220,7 @@ type Exec struct {
 	st0    *State // state at function entry (for old())
 	curInstr ssa.Instruction
 	inlineStack []*ssa.Function
+	top         *Exec // the execution of the function under verification (nil when this is it)
 	defers []deferRec
 	tagFacts map[string]bool
 	onAcquire func(e *Exec, lock Val, level int)
